@@ -23,12 +23,41 @@ ENGINES = [
 ]
 NOT_APPLICABLE = {}
 
+def sem(kinds, aspects, families='small,abc', ci='0', cfgs='all', **kw):
+    d = {'kinds': kinds, 'aspects': aspects, 'families': families, 'ci': ci, 'cfgs': cfgs}
+    d.update(kw)
+    return (B, 'sem', d)
+
+
+COMMON_NOTE = ('Trusted/assumed: Verus 0.2026.09.13 + Z3; the extraction rewrite rules of vlib/extract.py (listed per run in the evidence); '
+               'machine integers are Rust\'s (usize = 64 bit, slices shorter than usize::MAX); identifier newtypes abstracted as u32 newtypes; '
+               'MatchError constructors opaque. The contracts AC/SC/PC of a *built* automaton are hypotheses of the proofs; they are executed on the real '
+               'builders by the bounded stand-ins listed under coverage.bounded_checks (bounded over pattern lists, never counted as proved).')
+
 PROPS = {
     'C01': dict(
-        components=[(V, 'u1_search', {})],
-        level_text='Verus discharges, for all haystacks/spans/anchoring/earliest/prefilter results, that the real try_find_fwd(_imp) returns the abstract run answer find_spec of any automaton satisfying the Automaton contract AC.',
-        level_note='Assumes AC/SC/PC of the built automaton (executed by bounded stand-ins), Verus+Z3, the extraction rewrite rules, usize = 64 bit.',
+        components=[(V, 'u1_search', {}), (V, 'u1_iter', {}),
+                    sem('lf,ll', 'find,iter,spans')],
+        level_text='Proof (Verus, unbounded in haystack/span): the real try_find_fwd/try_find_fwd_imp/get_match return the abstract run answer find_spec ("keep the last match, stop at dead state or span end") of any automaton satisfying the Automaton contract AC, and FindIter::next/handle_overlapping_empty_match/search implement the iterator step relation of the statement (restart at previous end, empty-match rule). Bounded stand-in: leftmost-first/longest definition vs the real builders on all small pattern lists.',
+        level_note=COMMON_NOTE,
+    ),
+    'C02': dict(
+        components=[(V, 'u1_search', {}), (V, 'u1_iter', {}),
+                    sem('std', 'find,iter,spans')],
+        level_text='Proof (Verus): try_find_fwd forces earliest for standard automata (dispatcher obligation) and the loop returns at the first match state (find_spec with earliest); iterator as in C01. Bounded stand-in: earliest-end/longest/first-supplied definition vs the real builders.',
+        level_note=COMMON_NOTE,
+    ),
+    'C03': dict(
+        components=[(V, 'u1_overlap', {}),
+                    sem('std', 'ov,spans')],
+        level_text='Proof (Verus): every call of the real try_find_overlapping_fwd(_imp) on an OverlappingState reports the head of ov_remaining(state) (abstraction function over id/at/next_match_index) and leaves its tail, or reports None forever once it is empty — for all call-history prefixes, haystacks, spans. Bounded stand-in: the listing equals all occurrences exactly once in (end, longer-first, id) order on the real builders.',
+        level_note=COMMON_NOTE,
+    ),
+    'C09': dict(
+        components=[(V, 'u1_search', {}), (V, 'u1_overlap', {}), (V, 'u1_iter', {}),
+                    sem('std,lf,ll', 'find,iter,anch,ovanch,spans')],
+        level_text='Proof (Verus): with an anchored input the search loop keeps only matches starting at input.start (scan with fstart = Some(start)), the overlapping stepper reports exactly the kept matches (state_matches with keep), FindIter is generic in anchoring. Bounded stand-in: anchored results equal the definition restricted to occurrences starting at the span start, for NFAs and DFAs with Anchored/Both start kinds.',
+        level_note=COMMON_NOTE,
     ),
 }
-
 LEVEL = {pid: 'proof' for pid in PROPS}
